@@ -165,7 +165,8 @@ def _refute_by_sampling(text, timeout_ms=8000, tries=4):
 
 def decide(job):
     """job = (index, smt2 text, timeout_ms, use_cvc5, tactics) -> result dict"""
-    idx, text, timeout_ms, use_cvc5, tactics = job
+    idx, text, timeout_ms, use_cvc5, tactics = job[:5]
+    cross = job[5] if len(job) > 5 else False
     attempts = []
     model = None
     backend = "z3"
@@ -192,17 +193,23 @@ def decide(job):
         attempt("cvc5", lambda: _cvc5_check(text, timeout_ms / 1000.0))
     if timeout_ms <= 3000:
         attempt("z3:sampling", lambda: _refute_by_sampling(text))
+    if cross and r == "unsat" and backend.startswith("z3"):
+        # thorough tier: the other back end must not contradict a proof
+        r2, m2, secs, reason = _cvc5_check(text, 15.0)
+        attempts.append(("cvc5(cross-check)", r2, round(secs, 3), reason))
+        if r2 == "sat":
+            r, model, backend = "disagree", m2, "z3 vs cvc5"
     return {"idx": idx, "result": r, "model": model, "backend": backend, "attempts": attempts,
             "seconds": round(sum(a[2] for a in attempts), 3)}
 
 
-def discharge(obligations, timeout_ms=20000, procs=None, use_cvc5=True, tactics=("qfnra-nlsat",)):
+def discharge(obligations, timeout_ms=20000, procs=None, use_cvc5=True, tactics=("qfnra-nlsat",), cross=False):
     jobs = []
     for i, ob in enumerate(obligations):
         text = to_smt2(ob.hyps, ob.goal, negate=True)
         ob.meta['smt2'] = text
         tms = ob.meta.get('timeout_ms', timeout_ms)
-        jobs.append((i, text, tms, use_cvc5, tactics))
+        jobs.append((i, text, tms, use_cvc5, tactics, cross))
     procs = procs or min(16, max(1, os.cpu_count() or 1))
     results = [None] * len(jobs)
     if len(jobs) <= 2 or procs == 1:
@@ -215,7 +222,9 @@ def discharge(obligations, timeout_ms=20000, procs=None, use_cvc5=True, tactics=
                 results[res["idx"]] = res
     for ob, res in zip(obligations, results):
         r = res["result"]
-        if ob.expect == "valid":
+        if r == "disagree":
+            verdict = "backend-disagreement"
+        elif ob.expect == "valid":
             verdict = {"unsat": "valid", "sat": "invalid"}.get(r, "unknown")
         elif ob.expect == "sat":       # cover: must be satisfiable
             verdict = {"sat": "valid", "unsat": "vacuous"}.get(r, "unknown")
